@@ -262,8 +262,19 @@ func (s *MonStore) GetAccount(ctx context.Context, address string) (*ledger.Acco
 	return &ledger.Account{Address: address, Metadata: m}, nil
 }
 
+// gateKey: the worker context of a generation carries that generation's gate. A generation that has been killed can
+// have a batch in flight whose goroutine reaches InsertLogs late (seen under heavy machine load): it must meet its own
+// (dead) gate, never the gate of the generation that replaced it - a crashed process does not write.
+type gateKey struct{}
+
+func withGate(ctx context.Context, g Gate) context.Context { return context.WithValue(ctx, gateKey{}, g) }
+
 func (s *MonStore) InsertLogs(ctx context.Context, logs ...*ledger.ChainedLog) error {
-	if g := s.gate.Load(); g != nil {
+	gate := s.gate.Load()
+	if g, ok := ctx.Value(gateKey{}).(Gate); ok {
+		gate = &g
+	}
+	if g := gate; g != nil {
 		if err := (*g)(ctx, "persist.begin"); err != nil {
 			return err
 		}
@@ -285,7 +296,7 @@ func (s *MonStore) InsertLogs(ctx context.Context, logs ...*ledger.ChainedLog) e
 	}
 	s.Batches = append(s.Batches, rec)
 	s.mu.Unlock()
-	if g := s.gate.Load(); g != nil {
+	if g := gate; g != nil {
 		if err := (*g)(ctx, "persist.end"); err != nil {
 			return err
 		}
